@@ -30,9 +30,23 @@ type obs struct {
 	Err    string
 }
 
-func scenario(reloads int, lines []string) (func(), func() obs) {
+// stalledProg: version "a" observes into a histogram before anything else, and the harness stalls it in the
+// middle of a line by holding that histogram datum's lock; the later versions do not have the histogram.
+func stalledProg(v string) string {
+	if v != "a" {
+		return prog(v)
+	}
+	// (declared after the others, so that the declarations the versions share stay where they are)
+	return strings.Replace(prog(v), "/^(\\d+)$/ {", "histogram slow buckets 1, 2\n/./ {\n  slow = 1\n}\n/^(\\d+)$/ {", 1)
+}
+
+func scenario(reloads int, lines []string, stalled bool) (func(), func() obs) {
 	var store *metrics.Store
 	var errs []string
+	mkprog := prog
+	if stalled {
+		mkprog = stalledProg
+	}
 	body := func() {
 		errs = nil
 		store = metrics.NewStore()
@@ -43,8 +57,49 @@ func scenario(reloads int, lines []string) (func(), func() obs) {
 			errs = append(errs, err.Error())
 			return
 		}
-		if err := rt.CompileAndRun("p.mtail", strings.NewReader(prog("a"))); err != nil {
+		if err := rt.CompileAndRun("p.mtail", strings.NewReader(mkprog("a"))); err != nil {
 			errs = append(errs, err.Error())
+		}
+		var held *datum.Buckets
+		if stalled {
+			if m := store.FindMetricOrNil("slow", "p.mtail"); m != nil {
+				if d, err := m.GetDatum(); err == nil {
+					held = datum.GetBuckets(d)
+				}
+			}
+			if held == nil {
+				errs = append(errs, "harness: histogram datum not found")
+				return
+			}
+		}
+		if stalled {
+			// the harness drives: line 1 (the running version gets stuck in it), the reload, line 2, each until
+			// everything has come to rest, then the stuck version is released
+			ctx := context.Background()
+			// the first line is processed normally (the gauge exists from here on); from the second line on
+			// the running version stalls in the middle of a line for as long as the harness wants
+			vrt.S(in) <- logline.New(ctx, "f", lines[0])
+			vrt.Quiesce()
+			held.Lock()
+			vrt.S(in) <- logline.New(ctx, "f", lines[1])
+			vrt.Quiesce()
+			vrt.Go(func() {
+				if err := rt.CompileAndRun("p.mtail", strings.NewReader(mkprog("b"))); err != nil {
+					errs = append(errs, err.Error())
+				}
+			})
+			vrt.Quiesce()
+			vrt.Go(func() {
+				for _, l := range lines[2:] {
+					vrt.S(in) <- logline.New(ctx, "f", l)
+				}
+				close(vrt.Cl(in))
+			})
+			vrt.Quiesce()
+			held.Unlock()
+			wg.Wait()
+			vrt.Join()
+			return
 		}
 		vrt.Go(func() {
 			ctx := context.Background()
@@ -56,7 +111,7 @@ func scenario(reloads int, lines []string) (func(), func() obs) {
 		vrt.Go(func() {
 			for i := 0; i < reloads; i++ {
 				v := string(rune('b' + i))
-				if err := rt.CompileAndRun("p.mtail", strings.NewReader(prog(v))); err != nil {
+				if err := rt.CompileAndRun("p.mtail", strings.NewReader(mkprog(v))); err != nil {
 					errs = append(errs, err.Error())
 				}
 			}
@@ -70,6 +125,9 @@ func scenario(reloads int, lines []string) (func(), func() obs) {
 		for name, ml := range store.Metrics {
 			for _, m := range ml {
 				for _, lv := range m.LabelValues {
+					if m.Kind == metrics.Histogram {
+						continue
+					}
 					v := datum.GetInt(lv.Value)
 					switch {
 					case name == "n":
@@ -96,19 +154,23 @@ func main() {
 		reloads int
 		lines   []string
 		bound   int
+		stalled bool
 	}
 	scs := []sc{
-		{"1reload/3lines", 1, []string{"1", "2", "3"}, c.Pick(2, 3)},
-		{"2reloads/3lines", 2, []string{"1", "2", "3"}, c.Pick(2, 2)},
+		{"1reload/3lines", 1, []string{"1", "2", "3"}, c.Pick(2, 3), false},
+		{"2reloads/3lines", 2, []string{"1", "2", "3"}, c.Pick(2, 2), false},
 		// a single line: its datum is created while the input ends and the reload arrives
-		{"1reload/1line", 1, []string{"1"}, c.Pick(2, 5)},
+		{"1reload/1line", 1, []string{"1"}, c.Pick(2, 5), false},
+		// the running version is stuck in the middle of the first line for as long as it takes everything else to
+		// come to rest (a reload must wait for it, however long that is)
+		{"1reload/3lines/old-version-stalled", 1, []string{"1", "2", "3"}, c.Pick(2, 3), true},
 	}
 	if c.Thorough() {
-		scs = append(scs, sc{"1reload/4lines", 1, []string{"1", "2", "3", "x"}, 3}, sc{"1reload/2lines", 1, []string{"1", "2"}, 4})
+		scs = append(scs, sc{"1reload/4lines", 1, []string{"1", "2", "3", "x"}, 3, false}, sc{"1reload/2lines", 1, []string{"1", "2"}, 4, false})
 	}
 	for _, s := range scs {
 		s := s
-		body, read := scenario(s.reloads, s.lines)
+		body, read := scenario(s.reloads, s.lines, s.stalled)
 		wantN := int64(len(s.lines))
 		var wantLast int64
 		for _, l := range s.lines {
